@@ -89,6 +89,7 @@ func BigComponentsOK() bool {
 type GenOpts struct {
 	Thorough bool // adds the 65535/65536 sizes
 	MaxDepth int  // nesting depth of struct fields (default 4)
+	Dense    bool // struct pointers are (almost) always set and struct sequences non-empty
 }
 
 // Stats is what the generator/builder measured about one value (feeds the non-triviality rule
@@ -330,10 +331,11 @@ func (g *gen) field(label string, ft reflect.Type, fi *Field, depth int, force b
 		}
 		return g.byteNode(label, l)
 	case reflect.Pointer:
-		if nilable() {
+		et := ft.Elem()
+		dense := g.opts.Dense && depth == 0 && et.Kind() == reflect.Struct && g.st.ByType(et) != nil
+		if !dense && nilable() {
 			return Node{Z: true}
 		}
-		et := ft.Elem()
 		if et.Kind() == reflect.Struct && et != typeDuration {
 			if depth >= g.opts.MaxDepth {
 				if force {
@@ -362,6 +364,9 @@ func (g *gen) field(label string, ft reflect.Type, fi *Field, depth int, force b
 		n := rapid.IntRange(0, 4).Draw(g.t, label+"#")
 		if depth >= 2 && n > 2 {
 			n = 2
+		}
+		if n == 0 && g.opts.Dense && depth == 0 && g.st.ByType(ft.Elem()) != nil {
+			n = 1
 		}
 		out := Node{K: make([]Node, 0, n)}
 		for i := 0; i < n; i++ {
